@@ -6,9 +6,12 @@
 //!    output buffer of the right length (pre-filled with 0x5a), compared with
 //!    (a) `ref_convert`, an independent index-based reference of the documented rules (oracle) and
 //!    (b) the model's `transformRow` / `specConvert` / `outputColorType` / `outputLineSize` (driver);
-//!  * malformed stream: PLTE lengths that are not a multiple of 3 or exceed 768 bytes.  Under
-//!    EXPAND/ALPHA the pinned tree panics in `create_rgba_palette` (defect D1): reported as oracle
-//!    violation `palette-length/panic`; without EXPAND they must be silent copies;
+//!  * malformed stream: PLTE lengths that are not a multiple of 3 or exceed 768 bytes, with tRNS
+//!    shorter / equal / longer than the number of usable entries and every index value.  They are
+//!    checked against oracle and model like everything else (documented reading: the palette
+//!    entries are the whole 3-byte entries, at most 256 of them).  On the pinned tree a1124db
+//!    `create_rgba_palette` panicked here under EXPAND/ALPHA (defect D1, repaired in /repo commit
+//!    c0a00c7); a panic would be reported again as oracle violation `palette-length/panic`;
 //!  * buffers of other sizes (model domain only): rows and output buffers whose lengths are not the
 //!    advertised ones; asserts, slice panics and partial writes must be the model's, byte for byte;
 //!  * whole files (public API only): files of `/repo/tests/pngsuite` decoded with `next_frame` and
@@ -137,7 +140,7 @@ impl Case {
         match (&self.trns, self.color) {
             (None, _) => "absent".into(),
             (Some(t), 3) => {
-                let n = self.plte.as_ref().map(|p| p.len() / 3).unwrap_or(0);
+                let n = self.plte.as_ref().map(|p| (p.len() / 3).min(256)).unwrap_or(0);
                 if t.len() < n {
                     "indexed/shorter".into()
                 } else if t.len() == n {
@@ -255,7 +258,7 @@ pub fn ref_convert(c: &Case) -> Option<Vec<u8>> {
                     };
                     if alpha {
                         let a = match &c.trns {
-                            Some(t) if t.len() <= pal.len() / 3 && i < t.len() => t[i] as u32,
+                            Some(t) if t.len() <= entries && i < t.len() => t[i] as u32,
                             _ => 255,
                         };
                         o.push(a);
@@ -417,7 +420,7 @@ fn judge(c: &Case, model_ans: &str) -> Vec<Finding> {
                 if toks[3] != hex(&out) {
                     v.push(("model", format!("convert/{}", tag), "transformRow (model) differs from the row transform".into()));
                 }
-                if !c.palette_malformed() && toks[3] != toks[4] {
+                if toks[3] != toks[4] {
                     v.push(("model", format!("spec/{}", tag), "model: transformRow differs from specConvert".into()));
                 }
             }
@@ -651,12 +654,24 @@ fn gen_cases(ctx: &mut Ctx) -> Vec<Case> {
         v
     };
     for &l in &bad_lens {
+        let entries = (l / 3).min(256);
         for depth in [1u8, 4, 8] {
-            let width = rng.usize(1, 9);
-            let row = rng.class_bytes(raw_len(3, depth, width));
+            // depth 8: every index value; otherwise a short random row
+            let (width, row) = if depth == 8 {
+                (256, all_idx.clone())
+            } else {
+                let width = rng.usize(1, 9);
+                (width, rng.class_bytes(raw_len(3, depth, width)))
+            };
             let plte = Some(rng.class_bytes(l));
             let tl = rng.usize(0, 3);
-            for trns in [None, Some(rng.class_bytes(tl))] {
+            // tRNS: absent, short, as many as usable entries, one more (ignored), as many as l/3
+            // (more than 256 when the PLTE is over-long: ignored)
+            let mut tvars = vec![None, Some(rng.class_bytes(tl)), Some(rng.class_bytes(entries)), Some(rng.class_bytes(entries + 1))];
+            if l / 3 > 256 {
+                tvars.push(Some(rng.class_bytes(l / 3)));
+            }
+            for trns in tvars {
                 for flags in [0u8, 1, 2, 4, 5] {
                     cases.push(Case { color: 3, depth, flags, width, plte: plte.clone(), trns: trns.clone(), row: row.clone() });
                 }
@@ -714,7 +729,15 @@ fn offsize_part(ctx: &mut Ctx) {
         };
         let row = rng.class_bytes(row_len);
         let entries = rng.usize(1, 20);
-        let plte = if color == 3 { Some(palette_of(&mut rng, entries)) } else { None };
+        let any_len = rng.usize(0, 70);
+        let plte = if color != 3 {
+            None
+        } else if rng.chance(1, 4) {
+            // any byte length, including lengths that are not a multiple of 3
+            Some(rng.class_bytes(any_len))
+        } else {
+            Some(palette_of(&mut rng, entries))
+        };
         let trns = match color {
             3 => {
                 if rng.bool() {
